@@ -369,10 +369,15 @@ def readpath(ctx, pid):
     n_reads = 0
     probs = []
     for name in ("_set_kv_node", "_set_branch_node", "_delete_kv_node", "_delete_branch_node", "_get_proof"):
-        f = H(ctx, name)
+        gen_form = False
+        if name == "_get_proof":
+            f, form = util.proof_walker(ctx)
+            gen_form = form == "gen"
+        else:
+            f = H(ctx, name)
         init = _init_state(ctx, f) if name in FAMILY else None
-        node = ("p", "node")
-        keyp = [p_ for p_ in f.params if p_ in ("trie_key",)]
+        node = ("p", f.params[1]) if gen_form else ("p", "node")
+        keyp = [p_ for p_ in f.params if p_ in ("trie_key",)] if not gen_form else [f.params[2]]
         K = ("p", keyp[0]) if keyp else None
         for p, st in pq.states_init(ctx, f, init, until=None):
             for i, ev in enumerate(st.events):
@@ -388,7 +393,7 @@ def readpath(ctx, pid):
                 if idx in (C(1), C(-1)):
                     ek = ("call", NODES + "extract_key", (node,), ())
                     ok = False
-                    key_terms = [K] if name != "_get_proof" else [("slice", K, ("p", "proven_len"), None)]
+                    key_terms = [K] if name != "_get_proof" or gen_form else [("slice", K, ("p", "proven_len"), None)]
                     for t, pol, n_ in st.log:
                         if n_.lineno > ev.node.lineno:
                             continue
